@@ -160,10 +160,12 @@ CHECKS["C06"] = dict(
 CHECKS["C07"] = dict(
     level_text="The real Receive (packet loop, validators, dynamic walker, diff, DiskWriter, async data pipes) is executed symbolically on the model file system against an independent reference sender, for every legal STAT sequence, prior destination and DATA chunking inside the bounds: REQ ids are exactly the STAT positions of the regular non-link entries that differ, each once; stored bytes are the payload concatenation; FIN comes after all content; success only after the echo and end of stream; the destination equals the source view.",
     level_note="Bounds: source over {d, d/f, e} (dir, regular, symlink, fifo, hard link), symbolic permission/special bits, uid, gid, mtimes from 2 values, files of 0..1 (quick) / 0..2 (thorough) symbolic bytes, chunkings of every composition; prior destination per path in {absent, identical, other file, other dir with a stale child, symlink} plus a stale extra entry. " + FS_TRUST + BASE_TRUST,
-    assumptions=["one schedule; STAT/DATA races and 1 MiB chunks are outside the claim", "synthetic stats only (no disk on the sending side)"],
+    assumptions=["two deterministic schedules (run-until-block, and the same with receiver-side SendMsg latency); other interleavings and 1 MiB chunks are outside the claim", "synthetic stats only (no disk on the sending side)"],
     obligations=[
         ob("VH_C07_receiver", dict(SHAPE=0, MAXB=1), covers=["requested", "not-requested", "done"], bounds="source {d, e}, files <=1 byte"),
         ob("VH_C07_receiver", dict(SHAPE=1, MAXB=2), covers=["requested", "not-requested", "done"], bounds="source {d, d/f}, files <=2 bytes"),
+        ob("VH_C07_receiver", dict(SHAPE=0, MAXB=0, LN=1), covers=["requested", "not-requested", "done"], bounds="plain transfer whose source may hold a root-level regular file named .fsutil-metadata"),
+        ob("VH_C07_receiver", dict(SHAPE=1, MAXB=1, LAT=1), covers=["requested", "not-requested", "done"], bounds="source {d, d/f}; second deterministic schedule: the receiver's SendMsg returns after the peer reacted (DATA can overtake the return of the REQ call)"),
         ob("VH_C07_receiver", dict(SHAPE=2, MAXB=1), T, covers=["requested", "not-requested", "done"], bounds="source {d, d/f, e} incl. hard link, files <=1 byte"),
     ],
 )
@@ -175,6 +177,8 @@ CHECKS["C05"] = dict(
     obligations=[
         ob("VH_C05_notify", dict(SHAPE=0, MAXB=1), covers=["unchanged", "changed", "dir-metadata-change", "dir-unchanged", "delete", "done"], bounds="source {d, e}"),
         ob("VH_C05_notify", dict(SHAPE=1, MAXB=2), covers=["unchanged", "changed", "done"], bounds="source {d, d/f}, files <=2 bytes"),
+        ob("VH_C05_notify", dict(SHAPE=0, MAXB=0, TMP=1), covers=["unchanged", "changed", "delete", "done"], bounds="source {d, e}; stale destination entry may be named like the writer's temp files (.tmp.zz)"),
+        ob("VH_C05_notify", dict(SHAPE=0, MAXB=1, META=1), covers=["unchanged", "changed", "delete", "done"], bounds="source {d, e}; prior destination also with 'same bytes, size and mtime but another owner' (pure metadata edit of a file)"),
         ob("VH_C05_notify", dict(SHAPE=0, MAXB=1, FILTER=1), covers=["unchanged", "changed", "delete", "done"], bounds="source {d, e}, receiver filter rewriting the group of every entry"),
         ob("VH_C05_notify", dict(SHAPE=2, MAXB=1), T, covers=["unchanged", "changed", "dir-metadata-change", "delete", "done"], bounds="source {d, d/f, e} incl. hard link"),
         ob("VH_C05_notify", dict(SHAPE=2, MAXB=1, FILTER=1), T, covers=["unchanged", "changed", "delete", "done"], bounds="source {d, d/f, e}, receiver filter rewriting the group"),
